@@ -326,6 +326,7 @@ func TestCheck(t *testing.T) {
 			}
 			currentCase.Store(c)
 			defer currentCase.Store(nil)
+			Progress.Add(1) // every case is progress (the unit-level engines have no quiescent points of their own to count)
 			var tr *Trace
 			if p.exec != nil {
 				tr = p.exec(t, c)
